@@ -1,4 +1,4 @@
-import RV.Proofs.BinFirst
+import RV.Proofs.BinWriter
 /-
   C07 — a crash during an archive write never loses completed snapshots.
 
@@ -40,6 +40,16 @@ theorem c07_append_shape (hdr : Bytes) (fs0 : List Field) (ds : List (List Field
     overwrite (archI hdr fs0 ds) ((archI hdr fs0 ds).length - 12) (pendingData ds dn)
       = archI hdr fs0 (ds ++ [dn]) :=
   append_shape hdr fs0 ds dn
+
+/-- the write whose prefixes the crash theorem quantifies over is the one the writer performs: on a
+    well-formed archive `reb_simulation_save_to_file` finds nothing to repair, starts writing at the last
+    trailer and writes patched trailer ++ delta ++ END ++ new trailer -/
+theorem c07_append_plan (v : Variant) (cmp : Nat → Bytes → Bytes → Bool) (hdr : Bytes) (fs0 : List Field)
+    (ds : List (List Field)) (h : ArchOK hdr fs0 ds) (h2 t2 : Bytes) (b : List Field) (hh2 : h2.length = 64)
+    (hb : WFs b) (hL : blobLen (diffF v cmp fs0 b) < 2147483648) (hn : ds.length + 1 < 4294967296) :
+    appendPlan v cmp (archI hdr fs0 ds) (h2 ++ (encFs b ++ (endBytes ++ t2)))
+      = .plan ⟨(archI hdr fs0 ds).length - 12, pendingData ds (diffF v cmp fs0 b), false⟩ :=
+  appendPlan_archI v cmp hdr fs0 ds h h2 t2 b hh2 hb hL hn
 
 /-- prefix lemma: walking a strict prefix of an encoded blob ends in `read_error` — never in an accepted
     blob, never in an out-of-bounds read -/
